@@ -1,9 +1,11 @@
-/* Stub of <security/_pam_macros.h>: the two macros are mapped to marker functions so that they stay visible
-   as calls in clang's AST and CFG. _pam_overwrite wipes the string, _pam_drop frees and NULLs the pointer. */
+/* Stub of <security/_pam_macros.h>: the macros are mapped to marker functions so that they stay visible
+   as calls in clang's AST and CFG. _pam_overwrite wipes the string, _pam_overwrite_n wipes n bytes, _pam_drop frees and NULLs the pointer. */
 #ifndef VERIF_STUB_PAM_MACROS_H
 #define VERIF_STUB_PAM_MACROS_H
 void verif_pam_overwrite(char *x);
 void verif_pam_drop(void *xp);
+void verif_pam_overwrite_n(void *x, unsigned long n);
 #define _pam_overwrite(x) verif_pam_overwrite(x)
 #define _pam_drop(X) verif_pam_drop(&(X))
+#define _pam_overwrite_n(x, n) verif_pam_overwrite_n((x), (n))
 #endif
